@@ -171,7 +171,15 @@ pub fn literal_grammar(full: bool) -> Vec<String> {
     let bi = bound_ints();
     let _ = full;
     ints.extend(bi);
-    let fracs = ["", ".", ".0", ".4", ".49999", ".49999999", ".4999999999", ".4999999999999999999", ".5", ".50", ".50000001", ".500000000000000001", ".6", ".9"];
+    // where the spacing of the intermediate float types is 1 or 2: odd integers must survive a
+    // fraction / exponent spelling exactly when they are representable
+    for v in ["8388607", "8388609", "16777215", "16777217", "4503599627370495", "4503599627370497", "9007199254740991", "9007199254740993", "4611686018427387905"] {
+        ints.push(v.to_string());
+    }
+    // fractions: the neighbours of one half in f32 and in f64 are not ties
+    let fracs = [
+        "", ".", ".0", ".4", ".49999", ".49999997", ".49999999", ".4999999999", ".49999999999999994", ".4999999999999999999", ".5", ".50", ".50000001", ".50000006", ".5000000000000001", ".500000000000000001", ".6", ".9",
+    ];
     let exps = ["", "E0", "e+0", "E1", "E-1", "E2", "e-2", "E18", "E19", "E20", "E-400", "E400"];
     let mut out = vec![];
     for s in signs {
@@ -461,7 +469,7 @@ pub fn run(ctx: &'static Ctx) -> i32 {
     let mut c = cov();
     c.insert("evaluations".into(), json!(acc.evals));
     c.insert("distinct_nontrivial".into(), json!(acc.near_bound_or_half));
-    c.insert("rule".into(), json!(format!("literal grammar sign x integer part x fraction x exponent ({nl} literals: signs none/+/-; integer parts '',0,00,1,7,12 and every type bound -1/+0/+1/+2; fractions none, '.', .0, .4, .49999, .49999999, .4999999999, .4999999999999999999, .5, .50, .50000001, .500000000000000001, .6, .9; exponents none, E0, e+0, E1, E-1, E2, e-2, E18, E19, E20, E-400, E400; plus bounds written with shifted decimal points) and every NRf literal among the {ns} strings of length <= {n} over `+-0159.E` and among the {nsb} strings of length <= {nb} over `-.E0123456789`, x 10 integer targets + bool, through TryFrom<Token> and through Parameters::next_data in a real message; plus non-decimal literals (#H/#Q/#B of 0, 1, every bound, bound+1, 2^64-1, 2^64), MIN/MAX keywords in 8 spellings, near-miss keywords and every other element type. Oracle: exact decimal arithmetic (refmodel/decnum.rs): Ok(r) requires |r - x| <= 1/2 + delta, where delta is the distance from x to the farther of the two adjacent floats of the intermediate type that bracket it (0 if x is representable or the spelling is plain NR1); -222 requires that some such integer is unrepresentable. Distinct non-trivial = literals at a half-integer or next to a type bound")));
+    c.insert("rule".into(), json!(format!("literal grammar sign x integer part x fraction x exponent ({nl} literals: signs none/+/-; integer parts '',0,00,1,7,12 and every type bound -1/+0/+1/+2; fractions none, '.', .0, .4, .49999, .49999997 and .49999999999999994 (the f32 / f64 predecessors of one half), .49999999, .4999999999, .4999999999999999999, .5, .50, .50000001, .50000006, .5000000000000001, .500000000000000001, .6, .9; odd integers around 2^23, 2^24, 2^52, 2^53, 2^62; exponents none, E0, e+0, E1, E-1, E2, e-2, E18, E19, E20, E-400, E400; plus bounds written with shifted decimal points) and every NRf literal among the {ns} strings of length <= {n} over `+-0159.E` and among the {nsb} strings of length <= {nb} over `-.E0123456789`, x 10 integer targets + bool, through TryFrom<Token> and through Parameters::next_data in a real message; plus non-decimal literals (#H/#Q/#B of 0, 1, every bound, bound+1, 2^64-1, 2^64), MIN/MAX keywords in 8 spellings, near-miss keywords and every other element type. Oracle: exact decimal arithmetic (refmodel/decnum.rs): Ok(r) requires |r - x| <= 1/2 + delta, where delta is the distance from x to the farther of the two adjacent floats of the intermediate type that bracket it (0 if x is representable or the spelling is plain NR1); -222 requires that some such integer is unrepresentable. Distinct non-trivial = literals at a half-integer or next to a type bound")));
     c.insert("exhaustive".into(), json!(true));
     c.insert("conversions_ok".into(), json!(acc.ok_values));
     c.insert("conversions_range_error".into(), json!(acc.range_errors));
